@@ -339,7 +339,7 @@ def cases(tier, seed):
                     i += 1
                     yield {"id": i, "mode": mode, "ttypes": [tt], "pos": p, "kind": k, "origin": origin, "text": text, "markers": markers}
     # 2. sampled multi-turn conversations: corpus, carriers and mutations at a random position
-    n1, n2 = (900, 140) if quick else (14000, 1200)
+    n1, n2 = (900, 140) if quick else (14000, 900)
     for ver, n in (("v1", n1), ("v2", n2)):
         modes = [m for m in MODES if MODES[m][0] == ver]
         for _ in range(n):
